@@ -7,22 +7,23 @@ CONSTANTS MaxT
 
 Rec(h) == [id |-> h, h |-> h, prev |-> h - 1, data |-> TRUE, valid |-> 5, failed |-> FALSE, file |-> h \div 2, off |-> h]
 
-Linear(T, rev, s, e, cb) ==
+Linear(T, rev, s, e, cb, vf) ==
   [recs |-> [i \in 1..(T + 1) |-> Rec(IF rev THEN T + 1 - i ELSE i - 1)],
    store |-> {[file |-> h \div 2, off |-> h, id |-> h] : h \in 0..T},
    files |-> {h \div 2 : h \in 0..T},
    facts |-> [b \in 0..T |-> [prev |-> b - 1, merkleOk |-> TRUE]],
-   genesis |-> 0, start |-> s, end |-> e, verify |-> FALSE, cb |-> cb, limit |-> NONE, kill |-> FALSE,
+   genesis |-> 0, start |-> s, end |-> e, verify |-> vf, cb |-> cb, limit |-> NONE, kill |-> FALSE,
    tip |-> T, active |-> [h \in 0..T |-> h]]
 
-MCScenarios == {Linear(T, rev, s, e, cb) : T \in 0..MaxT, rev \in BOOLEAN, s \in 0..(MaxT + 1),
-                                          e \in {NONE} \cup 1..(MaxT + 2), cb \in Callbacks}
+\* (--verify is on for one key order and off for the other: it must not change what is delivered)
+MCScenarios == {Linear(T, rev, s, e, cb, rev) : T \in 0..MaxT, rev \in BOOLEAN, s \in 0..(MaxT + 1),
+                                               e \in {NONE} \cup 1..(MaxT + 2), cb \in Callbacks}
 
 \* the CLI rejects start >= end; a start above the tip is accepted but leaves "last processed" undefined
 Accepted(s) == (s.end = NONE \/ s.start < s.end) /\ s.start <= s.tip
 MCScen == {s \in MCScenarios : Accepted(s)}
 
-Obs == [T |-> sc.tip, rev |-> sc.recs[1].h # 0, start |-> sc.start, end |-> sc.end, cb |-> sc.cb,
+Obs == [T |-> sc.tip, rev |-> sc.recs[1].h # 0, start |-> sc.start, end |-> sc.end, cb |-> sc.cb, verify |-> sc.verify,
         exit |-> exit, heights |-> [i \in DOMAIN delivered |-> delivered[i][1]],
         finals |-> {[f |-> n[1], s |-> n[2], l |-> n[3]] : n \in DOMAIN fin}]
 Emit == Done => PrintT(<<"REPLAY", ToJson(Obs)>>)
